@@ -1,17 +1,17 @@
 SPECIFICATION Spec
 CONSTANTS
-  Annots <- AnAll
-  OvChoices <- OvFull
-  DfChoices <- DfSim
-  SpChoices <- SpBoth
+  Annots <- AnNone
+  OvChoices <- OvOne
+  DfChoices <- DfVals
+  SpChoices <- SpThree
   BoundVals = {24, 0}
-  MaxFuncs = 4
-  MaxParams = 40
-  MaxTotal = 40
-  MaxBound = 2
+  MaxFuncs = 1
+  MaxParams = 2
+  MaxTotal = 2
+  MaxBound = 0
   MaxVariants = 0
-  MinEmit = 12
-  SimMode = TRUE
+  MinEmit = 1
+  SimMode = FALSE
 INVARIANT InvWellFormed
 INVARIANT InvTiles
 INVARIANT InvOrdered
